@@ -368,6 +368,12 @@ def mk_cast(op, ty, a, ty2):
         return mk_cast(a[1], a[2], a[4], ty2)
     if op == "trunc" and a[0] == "cast" and a[1] in ("zext", "sext", "trunc") and b2 and _bits(a[2]) and _bits(a[2]) > b2:
         return mk_cast("trunc", a[2], a[4], ty2)
+    if op == "sext" and b1 and b2 and a[0] == "op" and a[1] == "shl" and is_c(a[4]) and a[4][2] < b1:
+        # a narrow left shift that cannot overflow (the operand's assumed range, shifted, stays inside the narrow type)
+        # is the wide left shift of the extended operand
+        rr = _range(a[3])
+        if rr is not None and -(1 << (b1 - 1)) <= (rr[0] << a[4][2]) and (rr[1] << a[4][2]) < (1 << (b1 - 1)):
+            return mk_bin("shl", ty2, mk_cast("sext", ty, a[3], ty2), C(b2, a[4][2]))
     if op == "sext" and a in _NONNEG:
         op = "zext"
     if op in ("zext", "sext") and ty == "i1" and b2:
